@@ -19,7 +19,11 @@ func (fc *FuncCtx) evalCall(c *ast.CallExpr, st *State) []*Value {
 	// builtins
 	if id, ok := ast.Unparen(c.Fun).(*ast.Ident); ok {
 		if b, ok := fc.info.Uses[id].(*types.Builtin); ok {
-			return fc.evalBuiltin(c, b.Name(), st)
+			cs := fc.callOrd[c]
+			fc.runGhostAt(st, "call", cs.callee, cs.n, "before", c.Pos())
+			res := fc.evalBuiltin(c, b.Name(), st)
+			fc.runGhostAt(st, "call", cs.callee, cs.n, "after", c.Pos())
+			return res
 		}
 	}
 	// function literal called in place
@@ -328,7 +332,11 @@ func (fc *FuncCtx) callWith(c *ast.CallExpr, st *State, recv *Value, args []*Val
 		return freshResults()
 	}
 	// special forms
-	if res, ok := fc.specialCall(c, st, full, recv, args, sig); ok {
+	if isSpecialCall(full) {
+		cs := fc.callOrd[c]
+		fc.runGhostAt(st, "call", cs.callee, cs.n, "before", c.Pos())
+		res, _ := fc.specialCall(c, st, full, recv, args, sig)
+		fc.runGhostAt(st, "call", cs.callee, cs.n, "after", c.Pos())
 		return res
 	}
 	_, callerKey := funcKey(fc.fn)
@@ -506,7 +514,23 @@ func (fc *FuncCtx) applyContract(c *ast.CallExpr, st *State, ct *Contract, fn *t
 	if ct.Trusted != "" || ct.Extern {
 		e.assumed["assumed contract: "+ct.Key] = true
 	}
+	// ghost statements after the call may name the callee's results
+	fc.ghostNames = map[string]*Value{}
+	for i, rv := range results {
+		rn := sig.Results().At(i).Name()
+		if i < len(ct.Results) {
+			rn = ct.Results[i]
+		} else if rn == "" || rn == "_" {
+			if nres == 1 {
+				rn = "result"
+			} else {
+				rn = fmt.Sprintf("result%d", i)
+			}
+		}
+		fc.ghostNames[rn] = rv
+	}
 	fc.runGhostAt(st, "call", cs.callee, cs.n, "after", c.Pos())
+	fc.ghostNames = nil
 	return results
 }
 
@@ -677,6 +701,14 @@ func (fc *FuncCtx) specialCall(c *ast.CallExpr, st *State, full string, recv *Va
 	return nil, false
 }
 
+func isSpecialCall(full string) bool {
+	switch full {
+	case "fmt:Sprintf", "fmt:Errorf", "errors:New", "fmt:Sprint", "sort:Sort", "sort:Stable":
+		return true
+	}
+	return false
+}
+
 func unquoteGo(s string) (string, error) {
 	if len(s) >= 2 && s[0] == '"' {
 		var out strings.Builder
@@ -742,8 +774,13 @@ func (fc *FuncCtx) sortCall(c *ast.CallExpr, st *State, full string) []*Value {
 	for k := 1; k < len(nv.L); k++ {
 		elemEq = append(elemEq, eq(sel(nv.L[k], i), sel(old.L[k], sel(perm, i))))
 	}
-	st.assume("(forall ((" + i + " Int)) (! (=> " + inR(i) + " (and " + inR(sel(perm, i)) + " " + eq(sel(pinv, sel(perm, i)), i) + " " + and(elemEq...) + ")) :pattern ((select " + perm + " " + i + "))))")
-	st.assume("(forall ((" + i + " Int)) (! (=> " + inR(i) + " (and " + inR(sel(pinv, i)) + " " + eq(sel(perm, sel(pinv, i)), i) + ")) :pattern ((select " + pinv + " " + i + "))))")
+	newPat, oldPat := "", ""
+	if len(nv.L) > 1 {
+		newPat = " :pattern ((select " + nv.L[1] + " " + i + "))"
+		oldPat = " :pattern ((select " + old.L[1] + " " + i + "))"
+	}
+	st.assume("(forall ((" + i + " Int)) (! (=> " + inR(i) + " (and " + inR(sel(perm, i)) + " " + eq(sel(pinv, sel(perm, i)), i) + " " + and(elemEq...) + ")) :pattern ((select " + perm + " " + i + "))" + newPat + "))")
+	st.assume("(forall ((" + i + " Int)) (! (=> " + inR(i) + " (and " + inR(sel(pinv, i)) + " " + eq(sel(perm, sel(pinv, i)), i) + ")) :pattern ((select " + pinv + " " + i + "))" + oldPat + "))")
 	// ordering: the sortspec is a spec expression "le(a, b)" over elements a and b
 	ex, err := parseSpec(specSrc)
 	if err != nil {
@@ -761,8 +798,8 @@ func (fc *FuncCtx) sortCall(c *ast.CallExpr, st *State, full string) []*Value {
 	}
 	st.assume("(forall ((" + i + " Int) (" + j + " Int)) (! (=> (and " + inR(i) + " " + inR(j) + " (< " + i + " " + j + ")) " + ord + ")" + pat + "))")
 	lv.store(st, &Value{Sh: lv.shape(), L: nv.L})
-	st.ghost["$perm"] = scalar(&Shape{Kind: KTotal, Key: shInt, elem: shInt, eng: e}, perm)
-	st.ghost["$pinv"] = scalar(&Shape{Kind: KTotal, Key: shInt, elem: shInt, eng: e}, pinv)
+	st.ghost["sortPerm"] = scalar(&Shape{Kind: KTotal, Key: shInt, elem: shInt, eng: e}, perm)
+	st.ghost["sortPinv"] = scalar(&Shape{Kind: KTotal, Key: shInt, elem: shInt, eng: e}, pinv)
 	e.assumed["sort.Sort/sort.Stable: result is a permutation ordered by the sortspec of "+named.Obj().Name()] = true
 	return nil
 }
@@ -836,11 +873,14 @@ func (fc *FuncCtx) modifiedBy(st *State, run func(h *State) ([]*State, []*State)
 			m["*"] = true
 		}
 	}
-	// targets that mention symbols created after the mark are not loop-invariant
+	// targets that mention symbols created after the mark are not loop-invariant:
+	// they are treated as objects allocated by the iteration itself ("~fresh"),
+	// which is checked by a loop-frame obligation at every such store
 	for _, m := range d2.heap {
 		for r := range m {
-			if r != "*" && mentionsFreshAfter(r, mark) {
-				m["*"] = true
+			if r != "*" && r != "~fresh" && mentionsFreshAfter(r, mark) {
+				delete(m, r)
+				m["~fresh"] = true
 			}
 		}
 	}
@@ -873,6 +913,7 @@ func mentionsFreshAfter(term string, mark int) bool {
 // havocDiff makes everything in d unknown in state h.
 func (fc *FuncCtx) havocDiff(h *State, d *stateDiff, whole bool) {
 	e := fc.e
+	allocBefore := h.alloc
 	if d.alloc {
 		na := e.fresh("alloc", "Int")
 		h.assume("(>= " + na + " " + h.alloc + ")")
@@ -902,6 +943,37 @@ func (fc *FuncCtx) havocDiff(h *State, d *stateDiff, whole bool) {
 		sh := heapKeys[k]
 		if whole || targets["*"] {
 			e.heapHavocAll(h, k, sh)
+			continue
+		}
+		if targets["~fresh"] {
+			// objects allocated before the loop (other than the stable targets) keep their contents
+			oldArrs := e.heapLeaves(h, k, sh)
+			sorts := e.leafSorts(sh)
+			newArrs := make([]string, len(sorts))
+			e.nfresh++
+			r := smtSym(fmt.Sprintf("r!b%d", e.nfresh))
+			guard := []string{"(< " + r + " " + allocBefore + ")"}
+			for _, t := range sortedStrings(targets) {
+				if t != "~fresh" {
+					guard = append(guard, not(eq(r, t)))
+				}
+			}
+			for i, srt := range sorts {
+				newArrs[i] = e.fresh("H."+k, "(Array Int "+srt+")")
+				h.assume("(forall ((" + r + " Int)) (! (=> " + and(guard...) + " (= (select " + newArrs[i] + " " + r + ") (select " + oldArrs[i] + " " + r + "))) :pattern ((select " + newArrs[i] + " " + r + "))))")
+			}
+			h.heap[k] = newArrs
+			m := h.storeLog[k]
+			if m == nil {
+				m = map[string]bool{}
+				h.storeLog[k] = m
+			}
+			m["~fresh"] = true
+			for _, t := range sortedStrings(targets) {
+				if t != "~fresh" {
+					m[t] = true
+				}
+			}
 			continue
 		}
 		for _, r := range sortedStrings(targets) {
@@ -953,6 +1025,14 @@ func (fc *FuncCtx) runLoop(node ast.Node, st *State, implicit func(h *State) []s
 	checkInvs(st, "inv-entry")
 	h := st.clone()
 	fc.havocDiff(h, d, false)
+	guard := &loopGuard{ord: ord, allocHead: h.alloc, keys: map[string]map[string]bool{}, pos: pos}
+	for k, targets := range d.heap {
+		if targets["~fresh"] && !targets["*"] {
+			guard.keys[k] = targets
+		}
+	}
+	fc.loopGuards = append(fc.loopGuards, guard)
+	defer func() { fc.loopGuards = fc.loopGuards[:len(fc.loopGuards)-1] }()
 	for _, f := range implicit(h) {
 		h.assume(f)
 	}
@@ -1167,3 +1247,28 @@ func (fc *FuncCtx) rangeVar(x ast.Expr) types.Object {
 }
 
 var _ = packages.NeedName
+
+// loopGuard records, for a loop being verified, the heap keys that the body is
+// allowed to modify only at objects allocated by the current iteration.
+type loopGuard struct {
+	ord       int
+	allocHead string
+	keys      map[string]map[string]bool
+	pos       token.Pos
+}
+
+// storeHook is installed as Engine.onStore while a function is verified.
+func (fc *FuncCtx) storeHook(st *State, key, ref string) {
+	if fc.e.dry > 0 {
+		return
+	}
+	for _, g := range fc.loopGuards {
+		targets, ok := g.keys[key]
+		if !ok || targets[ref] {
+			continue
+		}
+		goal := or("(>= "+ref+" "+g.allocHead+")", eq(ref, "0"))
+		fc.oblige(st, "loop-frame", fmt.Sprintf("loop%d:%s", g.ord, key), g.pos, goal, nil,
+			"a store to "+key+" inside the loop must target an object allocated by the current iteration (or a loop-invariant location)")
+	}
+}
